@@ -119,6 +119,49 @@ def _job(job):
     return fails
 
 
+def _cross_job(job):
+    """Cost of doc -> third for every ordered pair of formats the two sides can be loaded from: one value.  (A plist
+    target compared with a non-plist source is the listed wholesale-Replace finding, identified by its predicted cost.)"""
+    doc, third, opt = job
+    import graphtage
+    fails = []
+    tf = gt.TempFiles()
+    try:
+        options = graphtage.BuildOptions(**opt)
+        load = lambda f, d: graphtage.FILETYPES_BY_TYPENAME[f].build_tree(tf.write(dump(f, d), SUFFIX[f]), options)
+        costs = {}
+        for f, g in itertools.product(FORMATS, repeat=2):
+            a, b = load(f, doc), load(g, third)      # fresh trees for every comparison
+            try:
+                c = a.diff(b).edited_cost()
+            except Exception as ex:
+                c = f"{type(ex).__name__}: {str(ex)[:80]}"
+            if g == 'plist' and f != 'plist':
+                try:
+                    if c == graphtage.Replace(a, b).bounds().upper_bound:
+                        c = 'wholesale-replace'
+                except Exception:
+                    pass
+            costs[(f, g)] = c
+        ref = costs[('json', 'json')]
+        odd = {f"{f}->{g}": c for (f, g), c in costs.items() if c != ref and c != 'wholesale-replace'}
+        whole = [f"{f}->{g}" for (f, g), c in costs.items() if c == 'wholesale-replace' and c != ref]
+        if odd:
+            fails.append({'what': f"cost of {doc!r} -> {third!r} depends on the formats the two sides were loaded from: json->json {ref}, but {odd}",
+                          'class': 'c09-cross-format-cost'})
+        if whole:
+            fails.append({'what': f"cost of {doc!r} -> {third!r}: json->json {ref}, but a wholesale Replace for {whole}", 'class': 'c09-third-doc-cost:plist'})
+    except Exception as ex:
+        fails.append({'what': f"{type(ex).__name__}: {ex} (data {doc!r} vs {third!r})", 'class': f'c09-exception:{type(ex).__name__}'})
+    finally:
+        tf.cleanup()
+    for f in fails:
+        f['what'] += f" opt={opt}"
+        f['input'] = {'doc': doc, 'third': third, 'opt': opt}
+        f['replay'] = {'kind': 'cross', 'doc': doc, 'third': third, 'opt': opt}
+    return fails
+
+
 def witnesses(func_result, ob, repo_root, tier):
     rnd = random.Random(1)
     for d in gen_docs(rnd, 24):
@@ -130,6 +173,9 @@ def witnesses(func_result, ob, repo_root, tier):
 
 def replay(entry, repo_root):
     r = entry.get('replay') or {}
+    if r.get('kind') == 'cross':
+        f = _cross_job((r['doc'], r['third'], r['opt']))
+        return f[0]['what'] if f else None
     if r.get('kind') == 'doc':
         f = _job((r['doc'], r['third'], r['opt']))
         return f[0]['what'] if f else None
@@ -141,10 +187,14 @@ def bounded(tier, seed, repo_root):
     docs = gen_docs(rnd, 60 if tier == 'quick' else 600)
     jobs = [(d, rnd.choice(docs), gt.OPTION_COMBOS[i % 9]) for i, d in enumerate(docs)]
     fails = [f for fs in pmap(_job, jobs, repo_root, chunksize=1, job_timeout=120, on_timeout=timeout_failure('C09')) for f in fs]
+    special = docs[:16]
+    cj = [(a, b, gt.OPTION_COMBOS[(i + j) % 9]) for i, a in enumerate(special) for j, b in enumerate(special) if i != j]
+    cj += [(d, rnd.choice(docs), gt.OPTION_COMBOS[i % 9]) for i, d in enumerate(docs[16:])]
+    fails += [f for fs in pmap(_cross_job, cj, repo_root, chunksize=2, job_timeout=120, on_timeout=timeout_failure('C09')) for f in fs]
     return [{
         'name': 'C09.formats', 'bound': f"{len(docs)} documents in the common domain (string keys; string/int/float/bool values; lists and mappings incl. "
-        f"empty ones, falsy scalars and scalars at top level, depth <= 3) x 16 ordered pairs of json/json5/yaml/plist, options cycling through the 9",
-        'evaluations': len(jobs) * 16, 'distinct_nontrivial': len({json.dumps(d, sort_keys=True) for d in docs}), 'exhaustive': False,
+        f"empty ones, falsy scalars and scalars at top level, depth <= 3) x 16 ordered pairs of json/json5/yaml/plist, options cycling through the 9; {len(cj)} (document, third document) pairs - all ordered pairs of the 16 empty / falsy / scalar roots and seeded ones - with both sides loaded from every format (16 combinations each)",
+        'evaluations': len(jobs) * 16 + len(cj) * 16, 'distinct_nontrivial': len({json.dumps(d, sort_keys=True) for d in docs}), 'exhaustive': False,
         'rule': 'document written with each library dumper -> Filetype.build_tree for each format: equal trees, diff cost 0 in both '
                 'directions, CLI exit 0, equal cost against a third document',
         'failures': fails, 'samples': docs[:3],
